@@ -1,7 +1,10 @@
 """C07 — trash-put picks the trash dir the spec prescribes, on the file's own volume."""
-from ..putfamily import replay_family, run_family
+from ..core import Check, audit
+from ..putfamily import absorb, eval_task, replay_family, search_failing_input
+from ..runner import run_tasks
 
 CFG = {"oracles": ("C07", "C08", "C01"), "violations": ("C07",), "profile": "single", "states": False}
+CFG_MULTI = dict(CFG, profile="mixed")
 LEVEL_NOTE = ("theorems: home path from the environment (empty XDG_DATA_HOME = unset), candidate order, gates, rejected "
               "candidates are left untouched, created directories are 0700, the lexical volume ascent returns the device "
               "root on plain canonical paths; the choice as a whole is checked on the implementation against an "
@@ -10,11 +13,20 @@ RULE = ("seeded single-argument worlds over the configuration lattice: home on /
         "incl. a nested mount, .Trash in {absent, sticky, non-sticky, symlink to sticky / non-sticky, file} with and "
         "without .Trash/uid, .Trash-uid in {absent, dir, file, symlink to another volume}, XDG_DATA_HOME set / unset / "
         "empty / on another volume, HOME unset, uid in {0,1000,65534}, --trash-dir, --home-fallback with/without the "
-        "environment switch, files reached through symlinks crossing volumes")
+        "environment switch, files reached through symlinks crossing volumes, symbolic links that do not resolve on the way "
+        "to a trash directory; plus multi-argument worlds (arguments on different volumes in one run) where each "
+        "argument is judged on its own against C07.expected")
 
 
 def run(tier, seed):
-    return run_family("C07", tier, seed, CFG, 600, 10000, LEVEL_NOTE, RULE)
+    ck = Check("C07", tier, seed)
+    info = audit("C07")
+    n, nm = (600, 300) if tier == "quick" else (10000, 5000)
+    absorb(ck, "C07", run_tasks(eval_task, [{"pid": "C07", "seed": seed, "i": i, "cfg": CFG} for i in range(n)]), CFG, "Model.Put")
+    absorb(ck, "C07", run_tasks(eval_task, [{"pid": "C07m", "seed": seed, "i": i, "cfg": CFG_MULTI} for i in range(nm)]),
+           CFG_MULTI, "Model.Put")
+    search_failing_input(ck, "C07", seed, CFG, n, "Model.Put")
+    return ck.finish(info, LEVEL_NOTE, RULE)
 
 
 def replay(path):
